@@ -40,7 +40,7 @@ ALGS = {
 }
 CLASSREFS = ["urn:oasis:names:tc:SAML:2.0:ac:classes:InternetProtocolPassword", "urn:oasis:names:tc:SAML:2.0:ac:classes:PasswordProtectedTransport",
              "urn:oasis:names:tc:SAML:2.0:ac:classes:unspecified", "https://refeds.org/profile/mfa"]
-IDENT_CLASSES = ["plain", "xml-special", "lookalike-markup", "multibyte", "padded", "long", "many-values", "mixed", "repeated-values", "typed-lookalikes", "scale"]
+IDENT_CLASSES = ["plain", "xml-special", "lookalike-markup", "multibyte", "padded", "long", "many-values", "mixed", "repeated-values", "typed-lookalikes", "scale", "line-endings"]
 
 
 def identity_for(cls, rng):
@@ -61,6 +61,9 @@ def identity_for(cls, rng):
         return {n: [rng.choice(gen.UNICODE[:6]) + gen.word(rng, 1, 4), "𝔘𝔫𝔦𝔠𝔬𝔡𝔢 " + gen.word(rng, 1, 3)] for n in rng.sample(names, 3)}
     if cls == "padded":
         return {"givenName": ["  lead", "trail  ", " both ", "in  ner", "tab\tin", "line\nbreak", "\n\nwrapped\n"], "sn": [" x "]}
+    if cls == "line-endings":
+        # every way a line can end, inside a value (the ends of a value are trimmed by the SP)
+        return {"displayName": ["a\rb", "a\r\nb", "a\n\rb", "x\r\r\ny", "l1\nl2\r\nl3\rl4"], "sn": ["tab\tand\rcr"], "givenName": ["end\r", "\rstart", "plain"]}
     if cls == "long":
         return {"displayName": [gen.word(rng, 3000, 6000)], "mail": [gen.word(rng, 200, 300) + "@example.org"]}
     if cls == "many-values":
@@ -82,7 +85,7 @@ def identity_for(cls, rng):
                 "displayName": ["urn:oasis:names:tc:SAML:2.0:nameid-format:transient"]}
     ident = gen.identity(rng, hostile=True, lo=3, hi=8)
     for k in list(ident):
-        ident[k] = [v.replace("\r", " ").replace("\x00", "").replace("\x7f", "") for v in ident[k]]
+        ident[k] = [v.replace("\x00", "").replace("\x7f", "") for v in ident[k]]
     return ident
 
 
@@ -270,7 +273,7 @@ def run_case(case, ctx):
     elif extra == "locality-dns":
         authn["subject_locality"] = "client7.campus.example.org"
     elif extra == "instant":
-        authn["authn_instant"] = "2020-02-02T02:02:02Z"
+        authn["authn_instant"] = 1580608922        # 2020-02-02T02:02:02Z (the library takes seconds since the epoch)
     try:
         resp = idp.create_authn_response(dict((k, list(v)) for k, v in ident.items()), rid, dest, fed.SP_EID, userid="user-%s" % case["icls"], authn=authn,
                                          sign_response=bool(case["sr"]), sign_assertion=bool(case["sa"]), encrypt_assertion=bool(case["enc"]), **kw)
@@ -352,6 +355,13 @@ def run_case(case, ctx):
     ai = got.get("authn_info") or []
     if not ai or ai[0][0] != case["classref"]:
         viol.append({"key": "C08/authn-context-differs", "what": desc + ": %r, asked %r" % (ai, case["classref"])})
+    if case.get("authn_extra") == "instant":
+        try:
+            seen = r.assertion.authn_statement[0].authn_instant
+        except Exception as exc:
+            seen = "ERR %r" % (exc,)
+        if seen != "2020-02-02T02:02:02Z":
+            viol.append({"key": "C08/authn-instant-differs", "what": desc + ": AuthnInstant %r, asked 2020-02-02T02:02:02Z" % (seen,)})
     sess = got.get("session") if isinstance(got.get("session"), dict) else {}
     nooa = sess.get("not_on_or_after")
     if case["snooa"]:
@@ -373,4 +383,8 @@ def finalize(cases, results, tier, extras):
     if not any(r.get("outcome") == "accepted" for r in results):
         inc.append("no flow was accepted")
     raised = sum(r.get("counters", {}).get("idp_raised", 0) for r in results)
+    if results and raised > 0.05 * len(results):
+        # (an input the harness hands over in a form the IdP does not take - once an AuthnInstant given as text - silently removes a whole
+        #  slice of the workload)
+        inc.append("the IdP refused to build %d of %d responses - the workload is not what it is meant to be" % (raised, len(results)))
     return {"inconclusive": inc, "coverage": {"idp_refused_to_build": raised}}
